@@ -39,6 +39,8 @@ def _CARDANO_HELPERS(t, callee):
     return len(callee["blocks"]) <= 200
 
 
+_KEEP_ASM = []
+
 META = {
     "level": "other",
     "explanation": (
@@ -82,8 +84,22 @@ def s_hash(F, res):
     else:
         res.add([finding("S-HASH", key, where(f), "the reported hash and the payload are not derived from one and the same compiled transaction")])
     e = F.fn(CO + "entry_point")
-    du2 = mir.DefUse(e)
     txa = [(bi, s) for bi, si, s in mir.stmts(e) if s["rv"]["k"] == "agg" and s["rv"].get("adt", "").endswith("conway::Tx")]
+    if not txa:
+        # the assembly sits in helpers of the crate (`assemble_tx(body, witness_set, aux)`, `seal_body_hashes(&mut body, ..)`):
+        # those that build the Tx or write the two hash fields are inlined; what computes the hashes stays a call
+        def _asm(g, depth=0):
+            if any((s_["rv"]["k"] == "agg" and s_["rv"].get("adt", "").endswith("conway::Tx")) or
+                   any(p_[0] == "f" and p_[1] in ("script_data_hash", "auxiliary_data_hash") for p_ in s_["lhs"]["p"]) for _b, _i, s_ in mir.stmts(g)):
+                return True
+            return False
+
+        def _want_asm(t, callee):
+            return callee["crate"] == "tx3_cardano" and not callee.get("impl_trait") and len(callee["blocks"]) <= 200 and _asm(callee)
+        _KEEP_ASM.append(_want_asm)
+        e = mir.inline_calls(F, e, want=_want_asm, depth=2)
+        txa = [(bi, s) for bi, si, s in mir.stmts(e) if s["rv"]["k"] == "agg" and s["rv"].get("adt", "").endswith("conway::Tx")]
+    du2 = mir.DefUse(e)
     if not txa:
         raise BrokenCheck("entry_point no longer builds a Tx")
     rv = txa[0][1]["rv"]
@@ -389,13 +405,13 @@ def s_sets(F, res):
                 argl = [y.local for y in inner if y.kind == "arg"]
                 if argl and len(argl) == len(inner):
                     # the body builder's network parameter (whichever position): the caller passes pparams.network there
-                    e = F.fns[roles.builder_of(F, "tx3_cardano", "::Tx")]
-                    du2 = mir.DefUse(e)
-                    okk = False
-                    for bi, t in mir.calls(e):
-                        if call_matches(t, f["path"]):
-                            if all(0 <= a_ - 1 < len(t["args"]) and any(".network" in z.proj for z in mir.provenance(e, du2, t["args"][a_ - 1])) for a_ in set(argl)):
-                                okk = True
+                    # (every call of the body builder in the crate, wherever the assembly of the Tx was moved to)
+                    sites_ = [(e, t) for e in F.fns.values() if e["crate"] == "tx3_cardano" for bi, t in mir.calls(e) if call_matches(t, f["path"])]
+                    okk = bool(sites_)
+                    for e, t in sites_:
+                        du2 = mir.DefUse(e)
+                        if not all(0 <= a_ - 1 < len(t["args"]) and any(".network" in z.proj for z in mir.provenance(e, du2, t["args"][a_ - 1])) for a_ in set(argl)):
+                            okk = False
                     if okk:
                         res.add([ok("S-SETS", key, where(f), "network_id = Some(pparams.network)")])
                         continue
